@@ -31,11 +31,11 @@
 (***************************************************************************)
 EXTENDS Naturals, Sequences, FiniteSets
 
-CONSTANTS Dev_h12,     \* TRUE = as the code is: R<=4 file key derived from the password given, also when it is the owner password
-          Dev_h13,     \* TRUE = as the code is: the dictionary of a stream is not walked
-          Dev_t127,    \* TRUE = as the code is: R>=5 /U and /O are computed from the untruncated password, authentication truncates to 127 bytes
-          Dev_mdict,   \* TRUE = as the code is: the Metadata exemption also skips non-stream dictionaries typed /Metadata
-          Dev_dparr    \* TRUE = as the code is: a Crypt override given in the array form of DecodeParms is ignored
+CONSTANTS Dev_h12,     \* TRUE = the repaired defect: R<=4 file key derived from the password given, also when it is the owner password
+          Dev_h13,     \* TRUE = the repaired defect: the dictionary of a stream is not walked
+          Dev_t127,    \* TRUE = the repaired defect: R>=5 /U and /O are computed from the untruncated password, authentication truncates to 127 bytes
+          Dev_mdict,   \* TRUE = the repaired defect: the Metadata exemption also skips non-stream dictionaries typed /Metadata
+          Dev_dparr    \* TRUE = the repaired defect: a Crypt override given in the array form of DecodeParms is ignored
 
 -----------------------------------------------------------------------------
 (* Payload algebra *)
